@@ -211,6 +211,15 @@ class Built:
             return L.WithOptions(O[nd["inner"]], q, force=True) if nd["force"] else L.WithDefaultOptions(O[nd["inner"]], q)
         if k == "cached":
             return L.cached(O[nd["inner"]])
+        if k == "logged":
+            import logging
+
+            from labrea.logging import Logged
+
+            if nd["first"]:   # log_first=True is the default: both spellings
+                return Logged(O[nd["inner"]], logging.INFO, "verif.logged", "L%d" % i) if i % 2 else \
+                    Logged(O[nd["inner"]], logging.INFO, "verif.logged", "L%d" % i, log_first=True)
+            return Logged(O[nd["inner"]], logging.INFO, "verif.logged", "L%d" % i, log_first=False)
         if k == "fnapp":
             from labrea.application import FunctionApplication
 
